@@ -10,6 +10,8 @@ from .model import data as D
 class Prog:
     """a Case built together with its FileModel; checkpoints = points where the file is promised to be up to date"""
     def __init__(self, name, np=1, fmt=1, hints=None, env=None, path='a.nc', create=True):
+        from .script import merge_cfg
+        hints, env = merge_cfg(hints, env)
         self.case = Case(name, np); self.np = np; self.m = FileModel(fmt); self.path = path
         self.cps = []; self.rc_lines = []; self.tag = 0; self.prev = None; self.reads = []
         if env: self.case.op('*', 'env', **env)
